@@ -335,7 +335,9 @@ func genProg(t *rapid.T) progCase {
 
 func genProgOnce(t *rapid.T) progCase {
 	c := progCase{}
-	switch fw.Weighted(t, "kind", []int{42, 12, 16, 14, 4, 12, 12, 16, 16, 8, 8, 8}) {
+	switch fw.Weighted(t, "kind", []int{42, 12, 16, 14, 4, 12, 12, 16, 16, 8, 8, 8, 24}) {
+	case 12:
+		return genComposeCase(t)
 	case 6:
 		return genFormatCase(t)
 	case 7:
@@ -666,6 +668,7 @@ var frameSignatures = map[string]string{
 	"file.(*Handler).File":            "inline_table_over_cached_file_nil_handler",    // fixed 128f891
 	"query.(*View).replace":           "replace_repeated_key_negative_capacity_fatal", // fixed 884b635
 	"query.ViewMap.GetWithInternalId": "internal_id_zero_column_header_fatal",         // fixed c963649
+	"query.(*View).group":             "group_by_unknown_field_empty_input_fatal",     // fixed c6f7b20
 	"query.ParseExecuteStatements":    "execute_non_string_statement_fatal",           // fixed 263e9b2
 }
 
@@ -716,7 +719,7 @@ func checkProg(c progCase) (fw.Outcome, *fw.Violation) {
 			o.Fingerprint = fmt.Sprintf("%s|%s|%s|%s", c.Kind, c.Name, strings.Join(c.Args, ","), outcome)
 			o.Classes = append(o.Classes, "reached")
 		}
-	case "fmtstr", "tablefn", "stmt", "cursor", "flagset", "command":
+	case "fmtstr", "tablefn", "stmt", "cursor", "flagset", "command", "compose":
 		o.Classes = append(o.Classes, c.Kind+"="+c.Name)
 		if class != "syntax" {
 			o.Fingerprint = fmt.Sprintf("%s|%s|%s|%s", c.Kind, c.Name, strings.Join(c.Args, ","), outcome)
